@@ -122,6 +122,32 @@ fn eval(ctx: &Ctx, case: &Case) -> Verdict {
     let (r1, a1) = run_create(ctx, &dir, "c09p", &permuted_cs, &case.container, &opts(&permuted_map), Transport::Path);
     ensure!(r1.code == base.code && r1.stdout == base.stdout, "reordering the sample columns of the input ({:?}) changed the output: {} vs `sfs {}`: {}", case.col_perm, base.describe(), a1.join(" "), r1.describe());
 
+    // (i-b) the same with a record in which one listed sample is missing and another is not diploid:
+    // whichever column comes first, the outcome (a failing run) is the same
+    if case.map.entries.len() >= 2 && !case.cs.records.is_empty() {
+        let a = case.map.entries[0].0;
+        let b = case.map.entries[case.map.entries.len() - 1].0;
+        let ri = (case.draws[14] as usize) % case.cs.records.len();
+        let mut faulty = case.cs.clone();
+        faulty.records[ri].has_gt = true;
+        faulty.records[ri].gts[a] = crate::gen::callset::Gt::diploid(None, None, false);
+        faulty.records[ri].gts[b] = crate::gen::callset::Gt { alleles: vec![Some(1)], phased: vec![] };
+        let (f0, fa0) = run_create(ctx, &dir, "c09f", &faulty, &case.container, &opts(&case.map), Transport::Path);
+        let (f1, fa1) = run_create(ctx, &dir, "c09g", &faulty.permute_samples(&case.col_perm), &case.container, &opts(&permuted_map), Transport::Path);
+        // and with the two roles exchanged (the missing sample after the non-diploid one)
+        let mut swapped = faulty.clone();
+        swapped.records[ri].gts.swap(a, b);
+        let (f2, fa2) = run_create(ctx, &dir, "c09h", &swapped, &case.container, &opts(&case.map), Transport::Path);
+        for (r, argv_f) in [(&f0, &fa0), (&f1, &fa1), (&f2, &fa2)] {
+            ensure!(
+                r.clean_failure() && r.stdout.is_empty(),
+                "a record with a missing and a non-diploid genotype among the listed samples must fail the run whatever the column order: `sfs {}`: {}",
+                argv_f.join(" "),
+                r.describe()
+            );
+        }
+    }
+
     // (ii) permute list entries keeping the first-appearance order of labels
     let keep = order_preserving_permutation(&case.map, &case.draws);
     let (r2, a2) = run_create(ctx, &dir, "c09", &case.cs, &case.container, &opts(&keep), Transport::Path);
@@ -134,7 +160,7 @@ fn eval(ctx: &Ctx, case: &Case) -> Verdict {
 
     // (iii-b) the same samples file without a final newline, and with CRLF line endings
     {
-        let input = format!("c09.{}", case.container.ext());
+        let input = argv.last().expect("input path").clone();
         let text = case.map.file_text(&case.cs);
         for (what, content) in [
             ("without a final newline", text.trim_end_matches('\n').to_string()),
@@ -151,7 +177,7 @@ fn eval(ctx: &Ctx, case: &Case) -> Verdict {
     // (iii-c) the samples file handed over as something that is not a regular file: a pipe behind
     // /dev/stdin (what `-S <(cut ...)` or `... | sfs create -S /dev/stdin` amount to)
     {
-        let input = format!("c09.{}", case.container.ext());
+        let input = argv.last().expect("input path").clone();
         let text = case.map.file_text(&case.cs);
         let r = cli::sfs(ctx, &["create", "-S", "/dev/stdin", &input], cli::Input::Pipe(text.as_bytes()), &dir);
         ensure!(r.code == base.code && r.stdout == base.stdout, "the samples file read from a pipe (`-S /dev/stdin`) gives a different result than the inline list `{}`: {} vs {}", case.map.inline_arg(&case.cs), r.describe(), base.describe());
@@ -206,7 +232,7 @@ fn eval(ctx: &Ctx, case: &Case) -> Verdict {
             ensure!(rg.clean_failure() && rg.stdout.is_empty(), "a listed sample that is absent from the input must be an error: `sfs {}`: {}", ag.join(" "), rg.describe());
         }
         std::fs::write(dir.join("empty.samples"), "").expect("write");
-        let input = format!("c09.{}", case.container.ext());
+        let input = argv.last().expect("input path").clone();
         let re = cli::sfs(ctx, &["create", "-S", "empty.samples", &input], cli::Input::Null, &dir);
         ensure!(re.clean_failure() && re.stdout.is_empty(), "an empty samples file must be an error: {}", re.describe());
         let re = cli::sfs(ctx, &["create", "-s", "", &input], cli::Input::Null, &dir);
@@ -233,7 +259,7 @@ fn eval(ctx: &Ctx, case: &Case) -> Verdict {
 pub fn check(ctx: &Ctx) -> Check {
     let parts: Vec<Box<dyn Part>> = vec![Box::new(RandomPart {
         name: "axes-and-permutations",
-        rule: "call sets x duplicate-free sample lists (subset, order, named/unnamed mix, 1..4 labels) x a permutation of the input's sample columns x two permutations of the list: absolute (reference model: axes in first-appearance order, lengths 2*count+1, exact values) and metamorphic, all byte-identical stdout: permuted sample columns, list permuted keeping the label order, --samples vs --samples-file; a list permutation changing the label order by pi must give the baseline with axes transposed by pi; the samples file also without final newline, with CRLF (complete, cut after the last CR, cut before it), and read from a pipe (`-S /dev/stdin`); ghost sample (alone, and with a projection / --strict -q) and empty samples file are errors; ~11 runs per case; non-trivial = >=2 labels with different sample counts and a non-identity column permutation",
+        rule: "call sets x duplicate-free sample lists (subset, order, named/unnamed mix, 1..4 labels) x a permutation of the input's sample columns x two permutations of the list: absolute (reference model: axes in first-appearance order, lengths 2*count+1, exact values) and metamorphic, all byte-identical stdout: permuted sample columns, list permuted keeping the label order, --samples vs --samples-file; a list permutation changing the label order by pi must give the baseline with axes transposed by pi; the samples file also without final newline, with CRLF (complete, cut after the last CR, cut before it), and read from a pipe (`-S /dev/stdin`); a record with a missing and a non-diploid listed sample fails the run in every column order; ghost sample (alone, and with a projection / --strict -q) and empty samples file are errors; ~11 runs per case; non-trivial = >=2 labels with different sample counts and a non-identity column permutation",
         cases: ctx.tier.pick(2000, 60_000),
         strategy: Box::new(|| strategy().boxed()),
         eval: Box::new(eval),
